@@ -272,6 +272,7 @@ func (b *Browser) Do(r Req) *Exchange {
 	}
 	b.w.Log.Begin(ex)
 	arr0 := b.w.Up.Count()
+	fired0 := b.w.Net.FiredOn("browser>")
 	defer func() {
 		b.w.Log.End(ex)
 		for _, c := range b.w.Log.Since(ex.Seq+1, "") {
@@ -280,6 +281,9 @@ func (b *Browser) Do(r Req) *Exchange {
 			}
 		}
 		ex.Arrivals = b.w.Up.Since(arr0)
+		if b.w.Net.FiredOn("browser>") != fired0 {
+			ex.Injected = "net"
+		}
 		if b.w.OnExchange != nil {
 			b.w.OnExchange(ex)
 		}
